@@ -201,7 +201,95 @@ func checkC18(p *Prog, rp *Report) {
 	}
 
 	c18Xor(p, rp)
+	c18Env(p, rp, reachList)
 	c18StateFamily(p)
+}
+
+// c18Env: "the outcome depends only on the input": nothing reachable from the parsers consults the process
+// environment — the clock, the local time zone, environment variables, the host, random numbers. time.Parse is
+// environment free only for layouts without a zone abbreviation ("MST"): an abbreviation is resolved against
+// time.Local.
+func c18Env(p *Prog, rp *Report, fns []*ssa.Function) {
+	r := rp.Rule("C18-ENV", "no parser consults the process environment (clock, local time zone, environment variables, random numbers)", 1)
+	deny := map[string]string{
+		"time.Now": "the clock", "time.Since": "the clock", "time.Until": "the clock", "time.LoadLocation": "the time zone database",
+		"os.Getenv": "an environment variable", "os.LookupEnv": "an environment variable", "os.Environ": "the environment", "os.ExpandEnv": "the environment",
+		"os.Hostname": "the host name", "os.Getwd": "the working directory", "os.Getpid": "the process id", "os.UserHomeDir": "the user's home directory",
+		"(time.Time).Local": "the local time zone", "(time.Time).In": "a time zone",
+	}
+	// layouts with a zone abbreviation anywhere in the packages (constants that may reach a non-constant layout argument)
+	zoneLayouts := map[string]bool{}
+	isZoneLayout := func(s string) bool {
+		return strings.Contains(s, "MST") && (strings.Contains(s, "2006") || strings.Contains(s, "15:04") || strings.Contains(s, "Jan"))
+	}
+	scanConsts := func(fn *ssa.Function) {
+		for _, b := range fn.Blocks {
+			for _, ins := range b.Instrs {
+				for _, op := range ins.Operands(nil) {
+					if s, ok := constString(*op); ok && isZoneLayout(s) {
+						zoneLayouts[s] = true
+					}
+				}
+			}
+		}
+	}
+	for _, fn := range fns {
+		scanConsts(fn)
+	}
+	for _, k := range parserPkgs {
+		if sp := p.SPkg[k]; sp != nil {
+			if init := sp.Func("init"); init != nil {
+				scanConsts(init)
+			}
+		}
+	}
+	n := 0
+	for _, fn := range fns {
+		for _, b := range fn.Blocks {
+			for _, ins := range b.Instrs {
+				if u, ok := ins.(*ssa.UnOp); ok && u.Op == token.MUL {
+					if g, isG := u.X.(*ssa.Global); isG && g.Pkg != nil && g.Pkg.Pkg.Path() == "time" && g.Name() == "Local" {
+						n++
+						r.bad(fname(fn)+":time.Local", p.Pos(u.Pos()), "reads time.Local: the result depends on the time zone of the process", nil)
+					}
+				}
+				c, ok := ins.(ssa.CallInstruction)
+				if !ok {
+					continue
+				}
+				name := calleeName(c.Common())
+				if what, bad := deny[name]; bad {
+					n++
+					r.bad(fname(fn)+":"+shortFn(name), p.Pos(ins.Pos()), "calls "+shortFn(name)+": the result depends on "+what+", not only on the input", nil)
+					continue
+				}
+				if strings.HasPrefix(name, "math/rand.") || strings.HasPrefix(name, "math/rand/v2.") || strings.HasPrefix(name, "crypto/rand.") {
+					n++
+					r.bad(fname(fn)+":"+shortFn(name), p.Pos(ins.Pos()), "calls "+shortFn(name)+": the result depends on random numbers", nil)
+					continue
+				}
+				if name == "time.Parse" && len(c.Common().Args) == 2 {
+					if layout, isConst := constString(c.Common().Args[0]); isConst {
+						if isZoneLayout(layout) {
+							n++
+							r.bad(fname(fn)+":time.Parse", p.Pos(ins.Pos()), fmt.Sprintf("parses with the layout %q: a zone abbreviation is resolved against the local time zone of the process, so the same bytes give different instants", layout), nil)
+						}
+					} else if len(zoneLayouts) > 0 {
+						var ls []string
+						for l := range zoneLayouts {
+							ls = append(ls, l)
+						}
+						sort.Strings(ls)
+						n++
+						r.bad(fname(fn)+":time.Parse", p.Pos(ins.Pos()), fmt.Sprintf("parses with a layout chosen at run time, and layouts with a zone abbreviation are among the candidates (%q): an abbreviation is resolved against the local time zone of the process", ls), nil)
+					}
+				}
+			}
+		}
+	}
+	if n == 0 {
+		r.ok("parser entry points", "", fmt.Sprintf("%d functions reachable from the parsers: no clock, time zone, environment, host or random source; time.Parse only with layouts that carry a numeric zone", len(fns)))
+	}
 }
 
 // c18StateFamily interprets every kind of parser once or twice on concrete inputs from an initialised
@@ -709,6 +797,16 @@ func c18Term(p *Prog, rp *Report, fns []*ssa.Function, cursorFns map[*ssa.Functi
 		hasRV := false
 		for _, prm := range fn.Params {
 			if isReflectValue(prm.Type()) {
+				hasRV = true
+			}
+		}
+		for _, fv := range fn.FreeVars {
+			// a closure working on the reflected value of the function that made it
+			t := fv.Type()
+			if pt, isPtr := t.(*types.Pointer); isPtr {
+				t = pt.Elem()
+			}
+			if isReflectValue(t) {
 				hasRV = true
 			}
 		}
